@@ -74,9 +74,22 @@ def check_pruner_arg(ctx: Ctx, cname: str, new: FuncInfo, call: ast.Call) -> Non
     if len(call.args) != 1:
         raise AnalysisError(f"{new.where}: _pruner call shape")
     arg = call.args[0]
+    if isinstance(arg, ast.Name):
+        # a local bound once (e.g. `ordered = sorted(patts)`) stands for its value
+        binds = [st for st in walk_no_nested(new.node) if isinstance(st, ast.Assign) and len(st.targets) == 1 and isinstance(st.targets[0], ast.Name) and st.targets[0].id == arg.id]
+        muts = [n for n in walk_no_nested(new.node) if isinstance(n, ast.Call) and isinstance(n.func, ast.Attribute) and isinstance(n.func.value, ast.Name) and n.func.value.id == arg.id
+                and n.func.attr in ("append", "extend", "insert", "reverse", "sort", "pop", "remove", "clear")]
+        if len(binds) == 1 and not muts and arg.id != va:
+            arg = binds[0].value
+        elif arg.id != va:
+            raise AnalysisError(f"{new.where}: the list handed to the pruning loop (`{arg.id}`) is built in several steps; whether it is sorted is not recognised")
     if not (isinstance(arg, ast.Call) and call_name(arg) == ("sorted",)):
-        ctx.violation("C05-O1", new, call, f"the pruning loop receives `{unparse(arg)[:60]}`, not a sorted list: the resulting basis depends on the order in which patterns were given")
-        return
+        raw = arg.args[0] if isinstance(arg, ast.Call) and call_name(arg) in (("list",), ("tuple",)) and len(arg.args) == 1 else arg
+        if isinstance(raw, ast.Name) and raw.id == va or (isinstance(raw, (ast.ListComp, ast.GeneratorExp)) and len(raw.generators) == 1 and isinstance(raw.generators[0].iter, ast.Name)
+                                                          and raw.generators[0].iter.id == va):
+            ctx.violation("C05-O1", new, call, f"the pruning loop receives `{unparse(arg)[:60]}`, not a sorted list: the resulting basis depends on the order in which patterns were given", robust=True)
+            return
+        raise AnalysisError(f"{new.where}: whether `{unparse(arg)[:60]}` is the sorted list of all inputs is not recognised")
     for kw in arg.keywords:
         if kw.arg == "reverse" and not is_const(kw.value, False):
             ctx.violation("C05-O1", new, call, "patterns are sorted in reverse: a pattern is pruned against larger ones only, the result is not the canonical minimal basis")
